@@ -167,8 +167,14 @@ DOMNode *DOMAttrMapImpl::setNamedItem(DOMNode *arg)
         throw DOMException(DOMException::WRONG_DOCUMENT_ERR, 0, GetDOMNamedNodeMapMemoryManager);
     if (this->readOnly())
         throw DOMException(DOMException::NO_MODIFICATION_ALLOWED_ERR, 0, GetDOMNamedNodeMapMemoryManager);
-    if ((arg->getNodeType() == DOMNode::ATTRIBUTE_NODE) && argImpl->isOwned() && (argImpl->fOwnerNode != fOwnerNode))
-        throw DOMException(DOMException::INUSE_ATTRIBUTE_ERR,0, GetDOMNamedNodeMapMemoryManager);
+    if ((arg->getNodeType() == DOMNode::ATTRIBUTE_NODE) && argImpl->isOwned())
+    {
+        if (argImpl->fOwnerNode != fOwnerNode)
+            throw DOMException(DOMException::INUSE_ATTRIBUTE_ERR,0, GetDOMNamedNodeMapMemoryManager);
+
+        // it is one of our attributes: replacing an attribute node by itself has no effect
+        return 0;
+    }
 
     argImpl->fOwnerNode = fOwnerNode;
     argImpl->isOwned(true);
